@@ -155,3 +155,198 @@ fn damage_sweep_footer() {
 	// the last 50 bytes: footer (format, checksum type, two varint block handles, padding, magic)
 	damage_sweep_impl(50, 0, "damage_sweep_footer");
 }
+
+// ------------------------------------------------------------------------------------------------
+// C13 bounded check: whatever strictly ordered set of versioned entries is written with the real TableWriter is
+// returned completely and in order by forward and backward iteration and by seek, and Table::get(key, snapshot)
+// returns the newest version of that key at or below the snapshot or nothing - for every option combination.
+// Filters and key-range shortcuts must never hide a present entry.
+// Bound (stated): user keys {a, a\0, a\0\0, ab, ab\xff, b} (shared prefixes, keys that extend another key by
+// bytes of its trailer, 0xff-terminated), per key 0..3 versions (seq 5 / 9,5 / 9(delete),7,5), every combination
+// (4^6 = 4096 entry sets, quick tier: the 4^5 sets without `b`) x block size {32, 4096} x restart interval {1,16}
+// x index partition size {64, 16384} x filter {on, off}; lookups at seq {4,5,6,8,9,10,max} for all six keys.
+fn roundtrip_enum_impl(nkeys: usize, name: &str) {
+	use crate::LSMIterator as _;
+	let universe: Vec<Vec<u8>> = vec![b"a".to_vec(), b"a\0".to_vec(), b"a\0\0".to_vec(), b"ab".to_vec(), b"ab\xff".to_vec(), b"b".to_vec()];
+	let lookups: Vec<u64> = vec![4, 5, 6, 8, 9, 10, crate::INTERNAL_KEY_SEQ_NUM_MAX];
+	let mut cases = 0u64;
+	let mut nontrivial = 0u64;
+	let mut failures: Vec<String> = Vec::new();
+	let mut samples: Vec<String> = Vec::new();
+	// the table's own order: user key ascending, then (sequence number, kind) descending
+	let icmp = crate::comparator::InternalKeyComparator::new(Arc::new(crate::BytewiseComparator::default()));
+	use crate::Comparator as _;
+	let mut by_config: std::collections::BTreeMap<String, u64> = std::collections::BTreeMap::new();
+	let show = |k: &[u8]| k.iter().map(|b| if b.is_ascii_graphic() { (*b as char).to_string() } else { format!("\\\\x{b:02x}") }).collect::<String>();
+	for block_size in [32usize, 4096] {
+		for restart in [1usize, 16] {
+			for part in [64usize, 16384] {
+				for filter in [true, false] {
+					let mut o = Options::new().with_block_size(block_size).with_block_restart_interval(restart).with_index_partition_size(part);
+					if !filter {
+						o = o.with_filter_policy(None);
+					}
+					let opts = Arc::new(o);
+					for code in 1..4usize.pow(nkeys as u32) {
+						cases += 1;
+						// entries in table order: user key ascending, seq descending
+						let mut entries: Vec<(InternalKey, Vec<u8>)> = Vec::new();
+						let mut x = code;
+						for k in universe.iter().take(nkeys) {
+							let pat = x % 4;
+							x /= 4;
+							let vers: &[(u64, InternalKeyKind)] = match pat {
+								0 => &[],
+								1 => &[(5, InternalKeyKind::Set)],
+								2 => &[(9, InternalKeyKind::Set), (5, InternalKeyKind::Set)],
+								_ => &[(9, InternalKeyKind::Delete), (7, InternalKeyKind::Set), (5, InternalKeyKind::Set)],
+							};
+							for &(s, kind) in vers {
+								let val = if kind == InternalKeyKind::Delete || s == 7 { Vec::new() } else { ValueLocation::with_inline_value(format!("{}@{s}", show(k)).into_bytes()).encode() };
+								entries.push((InternalKey::new(k.clone(), s, kind, 0), val));
+							}
+						}
+						if entries.len() >= 4 {
+							nontrivial += 1;
+						}
+						let mut buf = Vec::new();
+						let mut bad: Option<String> = None;
+						{
+							let mut w = TableWriter::new(&mut buf, cases, Arc::clone(&opts), 0); // table ids are unique in a store: the block cache is keyed by them
+							for (k, v) in &entries {
+								if let Err(e) = w.add(k.clone(), v) {
+									bad = Some(format!("add failed: {e}"));
+									break;
+								}
+							}
+							if bad.is_none() {
+								if let Err(e) = w.finish() {
+									bad = Some(format!("finish failed: {e}"));
+								}
+							}
+						}
+						if bad.is_none() {
+							let size = buf.len() as u64;
+							let file: Arc<dyn File> = Arc::new(buf);
+							match Table::new(cases, Arc::clone(&opts), file, size) {
+								Err(e) => bad = Some(format!("open failed: {e}")),
+								Ok(t) => {
+									// point lookups
+									'outer: for k in &universe {
+										for &s in &lookups {
+											let want = entries.iter().find(|(ik, _)| &ik.user_key == k && ik.seq_num() <= s);
+											let probe = InternalKey::new(k.clone(), s, InternalKeyKind::Set, 0);
+											if !t.is_key_in_key_range(&probe) && want.is_none() {
+												continue; // the caller's range shortcut; nothing present is hidden
+											}
+											match t.get(&probe) {
+												Err(e) => {
+													bad = Some(format!("get({}, {s}) failed: {e}", show(k)));
+													break 'outer;
+												}
+												Ok(got) => {
+													// a lookup may return an entry of a DIFFERENT user key only as "nothing for this key"
+													let got_k = got.as_ref().filter(|(ik, _)| &ik.user_key == k);
+													let same = match (got_k, want) {
+														(None, None) => true,
+														(Some((gk, gv)), Some((wk, wv))) => gk.seq_num() == wk.seq_num() && gk.kind() == wk.kind() && gv == wv,
+														_ => false,
+													};
+													if !same {
+														bad = Some(format!("get({}, snapshot {s}) returns {:?}, the newest version at or below the snapshot is {:?}", show(k), got.as_ref().map(|(ik, _)| format!("{}@{}", show(&ik.user_key), ik.seq_num())), want.map(|(ik, _)| format!("{}@{}", show(&ik.user_key), ik.seq_num()))));
+														break 'outer;
+													}
+												}
+											}
+										}
+									}
+									// complete iteration, both directions, and seeks
+									if bad.is_none() {
+										let listing = |backward: bool| -> std::result::Result<Vec<(Vec<u8>, Vec<u8>)>, String> {
+											let mut it = t.iter(None).map_err(|e| e.to_string())?;
+											let mut out = Vec::new();
+											let mut ok = if backward { it.seek_last() } else { it.seek_first() }.map_err(|e| e.to_string())?;
+											while ok && out.len() <= entries.len() + 2 {
+												out.push((it.key().encoded().to_vec(), it.value_encoded().map_err(|e| e.to_string())?.to_vec()));
+												ok = if backward { it.prev() } else { it.next() }.map_err(|e| e.to_string())?;
+											}
+											if backward {
+												out.reverse();
+											}
+											Ok(out)
+										};
+										let want: Vec<(Vec<u8>, Vec<u8>)> = entries.iter().map(|(k, v)| (k.encode(), v.clone())).collect();
+										for backward in [false, true] {
+											match listing(backward) {
+												Err(e) => bad = Some(format!("iteration failed: {e}")),
+												Ok(l) => {
+													if l != want && bad.is_none() {
+														bad = Some(format!("{} iteration returns {} entries {:?}, written were {} entries", if backward { "backward" } else { "forward" }, l.len(), l.iter().map(|(k, _)| { let ik = InternalKey::decode(k); format!("{}@{}", show(&ik.user_key), ik.seq_num()) }).collect::<Vec<_>>(), want.len()));
+													}
+												}
+											}
+										}
+										if bad.is_none() {
+											for k in &universe {
+												for &s in &[10u64, 9, 6, 5, 1] {
+													let target = InternalKey::new(k.clone(), s, InternalKeyKind::Set, 0);
+													let want_idx = entries.iter().position(|(ik, _)| icmp.compare(&ik.encode(), &target.encode()) != Ordering::Less);
+													let mut it = match t.iter(None) {
+														Ok(it) => it,
+														Err(e) => {
+															bad = Some(format!("iter failed: {e}"));
+															break;
+														}
+													};
+													let ok = match it.seek(&target.encode()) {
+														Ok(v) => v,
+														Err(e) => {
+															bad = Some(format!("seek failed: {e}"));
+															break;
+														}
+													};
+													let got = if ok { Some(it.key().encoded().to_vec()) } else { None };
+													let wantk = want_idx.map(|i| entries[i].0.encode());
+													if got != wantk && bad.is_none() {
+														bad = Some(format!("seek({}@{s}) lands on {:?}, first entry at or after the target is {:?}", show(k), got.as_ref().map(|g| { let ik = InternalKey::decode(g); format!("{}@{}", show(&ik.user_key), ik.seq_num()) }), want_idx.map(|i| format!("{}@{}", show(&entries[i].0.user_key), entries[i].0.seq_num()))));
+													}
+												}
+											}
+										}
+									}
+								}
+							}
+						}
+						if bad.is_some() {
+							*by_config.entry(format!("block{block_size}/restart{restart}/partition{part}/filter{filter}")).or_insert(0u64) += 1;
+						}
+						if let Some(b) = bad {
+							if failures.len() < 5 {
+								failures.push(format!("{{\"entries\":\"{}\",\"block_size\":{block_size},\"restart_interval\":{restart},\"index_partition_size\":{part},\"filter\":{filter},\"mismatch\":{:?}}}", entries.iter().map(|(k, _)| format!("{}@{}{}", show(&k.user_key), k.seq_num(), if k.kind() == InternalKeyKind::Delete { "D" } else { "" })).collect::<Vec<_>>().join(" "), b));
+							}
+						} else if samples.len() < 3 && entries.len() >= 8 && block_size == 32 {
+							samples.push(format!("\"{} (block {block_size}, restart {restart}, partition {part}, filter {filter})\"", entries.iter().map(|(k, _)| format!("{}@{}", show(&k.user_key), k.seq_num())).collect::<Vec<_>>().join(" ")));
+						}
+					}
+				}
+			}
+		}
+	}
+	println!(
+		"REPLAY-RESULT {{\"driver\":\"sstable::table::{name}\",\"cases\":{cases},\"distinct_nontrivial\":{nontrivial},\"samples\":[{}],\"failing_entry_sets_by_config\":{:?},\"failures\":[{}]}}",
+		samples.join(","),
+		by_config,
+		failures.join(",")
+	);
+	assert!(failures.is_empty());
+}
+
+#[test]
+fn roundtrip_enum_quick() {
+	roundtrip_enum_impl(5, "roundtrip_enum_quick");
+}
+
+#[test]
+fn roundtrip_enum_thorough() {
+	roundtrip_enum_impl(6, "roundtrip_enum_thorough");
+}
